@@ -18,7 +18,7 @@ ASSUMPTIONS = ["exact sets: acyclic games with arbitrary ties; cyclic stopping g
                "separated by more than 2*delta*T+2e-6 (the property's own scope)",
                "the conditioned game is rebuilt from the reported reachability strategies, so a C04 tie split does not cascade"]
 TIMEOUT = 1800
-TABLE = [("G-LEX", 600), ("G-ACYT", 600), ("G-ACY", 300), ("G-CYC", 500), ("G-DEAD", 400), ("G-TIE", 200), ("G-EC", 200), ("G-SLOW", 80), ("G-ACYNF", 300), ("G-CYCNF", 200), ("G-TINYB", 200), ("G-INIT0NF", 100), ("G-RNEAR", 300), ("G-AUXFAST", 60), ("G-DUPL", 200), ("G-MIX", 500), ("G-SMALLX", 200), ("G-VSLOW", 4), ("G-GAP", 300), ("G-BIGR", 300), ("G-CORR", 100), ("G-DIGIT", 200)]
+TABLE = [("G-LEX", 600), ("G-ACYT", 600), ("G-ACY", 300), ("G-CYC", 500), ("G-DEAD", 400), ("G-TIE", 200), ("G-EC", 200), ("G-SLOW", 80), ("G-ACYNF", 300), ("G-CYCNF", 200), ("G-TINYB", 200), ("G-INIT0NF", 100), ("G-RNEAR", 300), ("G-AUXFAST", 60), ("G-DUPL", 200), ("G-MIX", 500), ("G-SMALLX", 200), ("G-VSLOW", 4), ("G-GAP", 300), ("G-BIGR", 300), ("G-CORR", 100), ("G-DIGIT", 200), ("G-RETRY", 200)]
 
 
 def plan(tier, seed):
